@@ -28,7 +28,7 @@ pub struct Case {
 
 pub fn gen_scenario(rng: &mut Rng, with_eval: bool) -> Scenario {
     let opts = GenOpts::swarm(rng);
-    let net = gen_net(rng, &opts);
+    let mut net = gen_net(rng, &opts);
     // mostly small sets; one in eight is large enough that different split trees of the
     // parallel batch map contain leaves of three or more samples
     // very wide layers are expensive per sample: keep their data sets moderate
@@ -36,7 +36,14 @@ pub fn gen_scenario(rng: &mut Rng, with_eval: bool) -> Scenario {
     let n = if scale() && very_wide {
         rng.range(17, 40)
     } else if scale() {
-        rng.range(100, 400)
+        // groups of 256 and more (and now and then 512 and more) samples: a parallel
+        // reduction with a minimum leaf length of 64 (128) only starts to depend on the
+        // pool width there
+        match rng.below(10) {
+            0 => rng.range(512, 530),
+            1..=4 => rng.range(256, 400),
+            _ => rng.range(100, 300),
+        }
     } else {
         match rng.below(8) {
             0 => 1,
@@ -46,6 +53,11 @@ pub fn gen_scenario(rng: &mut Rng, with_eval: bool) -> Scenario {
         }
     };
     let batch = match rng.below(6) {
+        _ if scale() && n >= 256 && rng.chance(0.6) => match rng.below(3) {
+            0 => n,
+            1 => n + rng.range(1, 2),
+            _ => rng.range(256, n),
+        },
         0 => 1,
         1 => n + rng.range(1, 2),
         2 => n,
@@ -57,7 +69,18 @@ pub fn gen_scenario(rng: &mut Rng, with_eval: bool) -> Scenario {
             }
         }
     };
-    let epochs = if scale() && !very_wide { rng.range(3, 12) as i32 } else { rng.range(1, 3) as i32 };
+    if scale() && n >= 100 && rng.chance(0.7) {
+        // the library sums (does not average) the gradients of a group: with hundreds of
+        // samples per step the default-sized learning rates diverge to NaN within an epoch
+        // or two and the case would be degenerate
+        match net.optimizer.as_mut() {
+            Some(o) => *o.lr_mut() /= n as f32,
+            None => net.optimizer = Some(crate::cfg::OptCfg::SGD { lr: 0.1 / n as f32, decay: None }),
+        }
+    }
+    let epochs = if scale() && n > 300 {
+        rng.range(2, 5) as i32
+    } else if scale() && !very_wide { rng.range(3, 12) as i32 } else { rng.range(1, 3) as i32 };
     let train = gen_data(rng, &net, n);
     let eval_size = |rng: &mut Rng| if very_wide { rng.range(60, 130) } else { eval_size(rng) };
     let val = if with_eval && rng.chance(0.5) {
@@ -134,14 +157,14 @@ impl Property for C05 {
         vec![
             "E1 switches only at join boundaries; leaf jobs of sibling subtrees never overlap and nothing is preempted inside a leaf (covered by the E2 Miri cross-check in the thorough tier)".into(),
             "all nondeterminism reaches the library through rayon-core, Tensor::random's clock read and the HashMap hasher; a new direct use of std::thread / SystemTime / std HashMap would bypass the seams (the exact-repetition execution would still flag run-to-run differences)".into(),
-            "networks are small (<= 5 layers, <= 200 elements per activation, batches <= 48), except for the scale stratum (about one case in seventy: up to 400 samples, batches above 127, layers up to 130 wide)".into(),
+            "networks are small (<= 5 layers, <= 200 elements per activation, batches <= 48), except for the scale stratum (about one case in seventy: up to 530 samples, groups of 256 and more, layers up to 130 wide, a few up to 2100)".into(),
         ]
     }
 
     fn runs(&self, tier: Tier) -> u64 {
         match tier {
-            Tier::Quick => 8000,
-            Tier::Thorough => 100000,
+            Tier::Quick => 20000,
+            Tier::Thorough => 200000,
         }
     }
 
@@ -161,6 +184,8 @@ impl Property for C05 {
             "skip_connection",
             "loop_connection",
             "batch_ge_17",
+            "group_ge_256",
+            "group_ge_256_completes",
             "print_some",
             "scale_stratum",
             "width_ge_1024",
@@ -183,6 +208,14 @@ impl Property for C05 {
         let mut e = Env::reference(clock);
         e.hash_seed = rng.next_u64() | 1;
         alts.push(e);
+        // the coarsest split tree there is: the caller is the only worker of a one-worker
+        // pool (as under `ThreadPool::install`), nothing is injected and nothing is stolen.
+        // From outside the pool every width starts with an injected (= migrated) top-level
+        // join and therefore with a finer tree; a reduction whose leaves depend on the split
+        // tree shows against this environment before it shows anywhere else.
+        let mut e = Env::reference(clock);
+        e.inside = true;
+        alts.push(e);
         for i in 0..k {
             alts.push(draw_env(rng, clock, i % 3 != 0));
         }
@@ -192,6 +225,7 @@ impl Property for C05 {
     fn check(&self, case: &Case, stats: &mut Stats) -> Outcome {
         scenario_probes(&case.sc, stats);
         let (r0, info0) = run(&case.sc, &case.reference, stats);
+        stats.probe("group_ge_256_completes", r0.is_ok() && case.sc.batch >= 256 && case.sc.train.len() >= 256);
         if let Some(d) = divergence(&case.reference, &info0) {
             return Outcome::HarnessError(d);
         }
